@@ -53,6 +53,9 @@ func c03ValStmts() []c03ValStmt {
 		{"== .k link(cbor,h0)", policy.Equal(".k", literal.LinkCid(pin)), func(_ string, k cid.Cid, l bool) bool { return l && k.Equals(pin) }},
 		{"not(== .k link(cbor,h0))", policy.Not(policy.Equal(".k", literal.LinkCid(pin))), func(_ string, k cid.Cid, l bool) bool { return !(l && k.Equals(pin)) }},
 		{"any .ks (== . link(cbor,h0))", policy.Any(".ks", policy.Equal(".", literal.LinkCid(pin))), func(_ string, k cid.Cid, l bool) bool { return l && k.Equals(pin) }},
+		{"== .k link(v0,h0)", policy.Equal(".k", literal.LinkCid(cid.NewCidV0(pin.Hash()))), func(_ string, k cid.Cid, l bool) bool { return l && k.Equals(cid.NewCidV0(pin.Hash())) }},
+		{"any .ks (== . link(v0,h0))", policy.Any(".ks", policy.Equal(".", literal.LinkCid(cid.NewCidV0(pin.Hash())))), func(_ string, k cid.Cid, l bool) bool { return l && k.Equals(cid.NewCidV0(pin.Hash())) }},
+		{"== .k link(raw,h0)", policy.Equal(".k", literal.LinkCid(cid.NewCidV1(cid.Raw, pin.Hash()))), func(_ string, k cid.Cid, l bool) bool { return l && k.Equals(cid.NewCidV1(cid.Raw, pin.Hash())) }},
 		{`not(== .name[-4:] ".exe")`, policy.Not(policy.Equal(".name[-4:]", literal.String(".exe"))), func(s string, _ cid.Cid, _ bool) bool { return runeSlice(s, -4, big) != ".exe" }},
 		{`not(like .name[-4:] "*exe")`, policy.Not(policy.Like(".name[-4:]", "*exe")), func(s string, _ cid.Cid, _ bool) bool { return !strings.HasSuffix(runeSlice(s, -4, big), "exe") }},
 		{`== .name[:-4] "café"`, policy.Equal(".name[:-4]", literal.String("café")), func(s string, _ cid.Cid, _ bool) bool { return runeSlice(s, 0, -4) == "café" }},
